@@ -34,34 +34,126 @@ class G:
             self.budget -= 1
             for o in self.op(ctx, depth): self.lines.append("do %s %s" % (ctx, o))
 
-def random_scenario(rng, sid):
-    g = G(rng, rng.choice([1, 2, 2, 3, 4, 6]), rng.choice([8, 15, 30, 60]))
-    g.body("top", 0, rng.randrange(1, 8))
-    g.lines.append("do top run")
-    # second phase
-    x = rng.random()
-    tail = []
-    if x < 0.5:
-        tail = ["restart", "run"]
-    elif x < 0.7:
-        tail = ["run"]
-    elif x < 0.85:
-        tail = ["restart", "t0.expires_after 7", "t0.wait h%d" % g.newh(), "run", "now"]
+TIE = [20, 20, 20, 30, 50]
+
+def _finish(g, rng, tail, hooks=("s",)):
+    """handler bodies, step-hook bodies, tail (shared by all random families)"""
     while g.queue and g.budget > 0:
         h, d = g.queue.pop(0)
         if d > 5 or rng.random() < 0.25: continue
         g.body("h%d" % h, d, rng.randrange(1, 4))
-    # ops at step boundaries
+    # ops at step boundaries (s<k>: after the k-th handler; a<k>: after the k-th clock step that fired timers)
     for _ in range(rng.choice([0, 0, 1, 2])):
         k = rng.randrange(1, 8)
         g.budget += 2
-        g.body("s%d" % k, 3, rng.randrange(1, 3))
+        g.body("%s%d" % (rng.choice(hooks), k), 3, rng.randrange(1, 3))
     while g.queue and g.budget > 0:
         h, d = g.queue.pop(0)
         if d > 5 or rng.random() < 0.5: continue
         g.body("h%d" % h, d, 1)
     for o in tail: g.lines.append("do top %s" % o)
-    return "== %s\n%s\nend\n" % (sid, "\n".join(g.lines))
+    return "\n".join(g.lines)
+
+def _tail(rng, g):
+    x = rng.random()
+    if x < 0.5: return ["restart", "run"]
+    if x < 0.7: return ["run"]
+    if x < 0.85: return ["restart", "t0.expires_after 7", "t0.wait h%d" % g.newh(), "run", "now"]
+    return []
+
+def pending_together(g, rng, ctx, depth, expiries, rel=False):
+    """k timers armed in one order and waited for in an independent order: waits that are pending
+    TOGETHER, with equal expiries among them (the subject of C03's expiry-then-arming order and of
+    C02's earliest-expiry jump). Returns the handler ids of the waits."""
+    k = rng.randrange(2, 5)
+    g.nt = max(g.nt, k)
+    ts = rng.sample(range(g.nt), k)
+    arm = list(ts); rng.shuffle(arm)
+    for t in arm:
+        e = rng.choice(expiries)
+        g.lines.append("do %s t%d.%s %d" % (ctx, t, "expires_after" if rel else "expires_at", e))
+    wt = list(ts); rng.shuffle(wt)
+    hs = []
+    for t in wt:
+        h = g.newh(); g.queue.append((h, depth + 1)); hs.append(h)
+        g.lines.append("do %s t%d.wait h%d" % (ctx, t, h))
+    return hs
+
+def random_scenario(rng, sid):
+    g = G(rng, rng.choice([1, 2, 2, 3, 4, 6]), rng.choice([8, 15, 30, 60]))
+    g.body("top", 0, rng.randrange(1, 8))
+    g.lines.append("do top run")
+    # second phase
+    tail = _tail(rng, g)
+    return "== %s\n%s\nend\n" % (sid, _finish(g, rng, tail))
+
+def tie_scenario(rng, sid):
+    """several waits pending together, ties included; then the usual random body, handlers and hooks"""
+    g = G(rng, rng.choice([2, 2, 3, 4, 6]), rng.choice([8, 15, 30, 60]))
+    x = rng.random()
+    if x < 0.6:
+        pending_together(g, rng, "top", 0, TIE)
+    elif x < 0.8:
+        # armed from inside a handler that runs at t=10 (relative expiries: equal instants again)
+        h = g.newh()
+        g.lines.append("do top t%d.expires_at 10" % (g.nt,)); g.lines.append("do top t%d.wait h%d" % (g.nt, h))
+        pending_together(g, rng, "h%d" % h, 1, [10, 10, 10, 20, 40], rel=True)
+    else:
+        # two groups: the second one armed later (posted handler at t=0) with the same instants
+        pending_together(g, rng, "top", 0, TIE)
+        h = g.newh(); g.lines.append("do top post h%d" % h)
+        pending_together(g, rng, "h%d" % h, 1, TIE)
+    g.body("top", 0, rng.randrange(0, 4))
+    g.lines.append("do top run")
+    tail = _tail(rng, g)
+    return "== %s\n%s\nend\n" % (sid, _finish(g, rng, tail, hooks=("s", "s", "a")))
+
+def stop_scenario(rng, sid):
+    """stop() / restart() / run() at event boundaries across pending work: >= 2 waits pending (distinct
+    and equal expiries) and posted handlers queued when the loop is stopped; stop from a handler, from a
+    step hook, or at top before the first run; restart from top (after run returned) or from inside the
+    run (a later handler / hook of the same round); the program always ends `restart, run`, so that
+    everything pending must still complete, once, in order."""
+    g = G(rng, rng.choice([2, 3, 4]), rng.choice([8, 15, 30]))
+    first = pending_together(g, rng, "top", 0, [20, 20, 30, 50, 50, 100])
+    posts = []
+    for _ in range(rng.randrange(0, 3)):
+        h = g.newh(); posts.append(h); g.queue.append((h, 1))
+        g.lines.append("do top %s h%d" % (rng.choice(["post", "post", "defer"]), h))
+    g.body("top", 0, rng.randrange(0, 3))
+    x = rng.random()
+    if x < 0.15:
+        sctx = "top"                                                   # stopped before the first run
+    elif x < 0.55:
+        sctx = "h%d" % rng.choice(posts + first)                       # from a handler (t=0 or a timer's)
+    elif x < 0.8:
+        sctx = "s%d" % rng.randrange(1, 5)                             # handler boundary
+    else:
+        sctx = "a%d" % rng.randrange(1, 3)                             # completions posted, none has run
+    g.lines.append("do %s stop" % sctx)
+    y = rng.random()
+    if y < 0.3 and sctx != "top":
+        # restart inside the same run, after the stop: the loop must carry on as if never stopped
+        v = rng.randrange(3)
+        if v == 0:
+            g.lines.append("do %s now" % sctx); g.lines.append("do %s restart" % sctx)
+        elif v == 1:
+            h = g.newh()                                               # a handler of the same round
+            g.lines.append("do %s post h%d" % (sctx, h)); g.lines.append("do h%d restart" % h)
+        else:
+            # at the clock step that ends the stopped round (its completions are posted)
+            for k in range(1, 4): g.lines.append("do a%d restart" % k)
+    elif y < 0.35:
+        g.lines.append("do s%d restart" % rng.randrange(1, 6))         # anywhere (possibly before the stop)
+    g.lines.append("do top run")
+    z = rng.random()
+    mid = []
+    if z < 0.2: mid = ["now", "run"]                                   # run while still stopped: one more round
+    elif z < 0.35: mid = ["t0.expires_after 5"]                        # re-arm between the runs
+    elif z < 0.45: mid = ["t1.cancel"]
+    elif z < 0.55: mid = ["post h%d" % g.newh()]
+    tail = mid + ["restart", "run"] + (["run"] if rng.random() < 0.3 else [])
+    return "== %s\n%s\nend\n" % (sid, _finish(g, rng, tail, hooks=("s", "s", "a")))
 
 def exhaustive(maxlen):
     """All sequences of length <= maxlen over a small alphabet on 2 timers, issued at top
@@ -85,14 +177,49 @@ def exhaustive(maxlen):
             lines.append("do h0 t1.cancel"); lines.append("do h0 t0.expires_at 20"); lines.append("do h0 t0.wait h%d" % h)
             yield "== x%d\n%s\nend\n" % (n, "\n".join(lines)); n += 1
 
+TIE_PREFIXES = [
+    ["t0.expires_at 20", "t1.expires_at 20", "t0.wait", "t1.wait"],
+    ["t1.expires_at 20", "t0.expires_at 20", "t0.wait", "t1.wait"],
+    ["t0.expires_at 20", "t1.expires_at 20", "t1.wait", "t0.wait"],
+    ["t0.expires_at 20", "t0.wait", "t1.expires_after 20", "t1.wait"],
+]
+
+def exhaustive_ties(maxlen):
+    """Every sequence of length <= maxlen over the same alphabet, issued after a fixed prefix that leaves
+    two waits pending together at EQUAL expiry (armed / waited for in each relative order): the shortest
+    prefix with a tie has 4 ops, which exhaustive(3) cannot contain. For every sequence one variant whose
+    first handler interferes with the other timer (its completion is then already posted) and one that
+    only re-arms its own."""
+    alpha = ["t0.expires_at 0", "t0.expires_at 20", "t0.expires_after 20", "t0.wait", "t0.cancel",
+             "t1.expires_at 20", "t1.expires_after -5", "t1.wait", "t1.cancel", "post", "run"]
+    n = 0
+    for pi, pre in enumerate(TIE_PREFIXES):
+        for L in range(0, maxlen + 1):
+            for seq in itertools.product(alpha, repeat=L):
+                for interfere in (True, False):
+                    lines = []; h = 0
+                    for o in list(pre) + list(seq):
+                        if o.endswith("wait") or o == "post":
+                            lines.append("do top %s h%d" % (o, h)); h += 1
+                        else:
+                            lines.append("do top " + o)
+                    lines.append("do top run")
+                    if interfere: lines.append("do h0 t1.cancel")
+                    lines.append("do h0 t0.expires_at 20"); lines.append("do h0 t0.wait h%d" % h)
+                    yield "== y%d\n%s\nend\n" % (n, "\n".join(lines)); n += 1
+
 def generate(seed, tier):
     rng = random.Random(seed * 7919 + 17)
     out = []
     nrand = 1500 if tier == "quick" else 40000
     for i in range(nrand):
-        out.append(random_scenario(rng, "r%d" % i))
+        x = rng.random()
+        if x < 0.45: out.append(random_scenario(rng, "r%d" % i))
+        elif x < 0.75: out.append(tie_scenario(rng, "r%d" % i))
+        else: out.append(stop_scenario(rng, "r%d" % i))
     ex = list(exhaustive(3 if tier == "quick" else 4))
     if tier == "quick":
         rng.shuffle(ex); ex = ex[:1500]
     out += ex
+    out += list(exhaustive_ties(2 if tier == "quick" else 3))
     return out
